@@ -3,6 +3,10 @@
 import json, subprocess
 
 CLAIMED = {
+ "C01": dict(
+   text="Bounded adversary synthesis on the real multi-node code: three real correct nodes (filters, terms, storage) and one Byzantine committee member whose messages are entirely symbolic (any kind and fields; genuine signatures only under Byzantine/outsider keys, byte-exact replays allowed). A run is a listed honest prefix with partial delivery (all locked; one node committed) and election timeouts, followed by <=2 (quick) / <=3 (thorough) adversarial multicasts each followed by a FIFO flush of the honest traffic; the assertion is agreement itself (all commit callbacks of correct nodes carry the same block), so a violation is a concrete run replayed natively on the real TermInCommittees. The known stand-alone-PREPREPARE attack (S7) is reported as an input class; the general query excludes that class. This is a bounded search, not a proof of agreement.",
+   note="Trusted: gosym interpreter; ideal signatures with the unforgeability assumption; stubs; n=4 equal weights, one Byzantine member; only the listed prefixes, kinds and delivery patterns.",
+   design="6/C01"),
  "C18": dict(
    text="Bounded symbolic model checking of the real calcLeaderOfViewAndCommittee / isLeaderOfViewForThisCommittee: for each committee size n the 64-bit view is one symbolic variable, so each solver verdict covers all 2^64 views (no panic, result = members[view mod n], determinism, n consecutive views give n distinct leaders). Sizes are concrete per query (quick: 4,5,7,22,64; thorough: every n in 4..64).",
    note="Trusted: the gosym SSA interpreter (validated by native replay of every model), cvc5 1.0 integer blasting / z3; committee ids are the concrete bytes 1..n.",
